@@ -1,28 +1,53 @@
-"""Compile (and cache on disk) the numba signatures the quick tiers use."""
-import os, sys, time
+"""Compile (and cache on disk) the numba signatures a tier uses, one subprocess per trace dtype.
+usage: warm.py [--full] [--kinds anova,tbuild,ttacc,mia] [--dtype X (internal: one dtype, in-process)]"""
+import os, subprocess, sys, time
 V = os.path.dirname(os.path.dirname(os.path.abspath(__file__)))
 sys.path.insert(0, V)
-from sim import env, kinds
-import numpy as np
-scared = env.boot()
-t0 = time.time()
-full = '--full' in sys.argv
-dts = ['uint8', 'float32'] + (['int8', 'int16', 'float64'] if full else [])
-for td in dts:
+
+
+def arg(name, default=None):
+    if name in sys.argv:
+        return sys.argv[sys.argv.index(name) + 1]
+    return default
+
+
+KINDS = arg('--kinds', 'anova,tbuild,ttacc,mia').split(',')
+FULL = '--full' in sys.argv
+
+
+def one(td):
+    from sim import env, kinds
+    import numpy as np
+    env.boot()
     for prec in ('float32', 'float64'):
         tr = (np.arange(24).reshape(12, 2) % 5).astype(td)
         da = (np.arange(12).reshape(12, 1) % 3).astype('uint8')
-        for kind in ('anova', 'tbuild', 'ttacc'):
+        for kind in KINDS:
+            if kind == 'mia':
+                continue
             try:
                 a = kinds.make(kind, prec, [0, 1, 2])
                 with env.clock(env.SimClock()), env.memory(env.SimMemory()):
                     a.update(tr[:6], da[:6]); a.update(tr[6:], da[6:]); a.compute()
             except Exception as e:
                 print('warm', kind, td, prec, 'failed', repr(e))
-    for mp in (None, 'float64'):
-        try:
-            a = kinds.make('mia', 'float32', [0, 1, 2], {'mia_precision': mp})
-            a.update(tr, da); a.compute()
-        except Exception as e:
-            print('warm mia failed', repr(e))
-print('warmed in %.1fs seams=%s' % (time.time() - t0, env.SEAMS))
+    if 'mia' in KINDS:
+        for mp in (None, 'float64'):
+            try:
+                a = kinds.make('mia', 'float32', [0, 1, 2], {'mia_precision': mp})
+                a.update(tr, da); a.compute()
+            except Exception as e:
+                print('warm mia failed', repr(e))
+    print('warmed %s seams=%s' % (td, env.SEAMS))
+
+
+if __name__ == '__main__':
+    if arg('--dtype'):
+        one(arg('--dtype'))
+        sys.exit(0)
+    t0 = time.time()
+    dts = ['uint8', 'float32'] + (['int8', 'int16', 'float64'] if FULL else [])
+    ps = [subprocess.Popen([sys.executable, os.path.abspath(__file__), '--dtype', td, '--kinds', ','.join(KINDS)]) for td in dts]
+    rc = max(p.wait() for p in ps)
+    print('warmed %d dtypes x 2 precisions, kinds %s in %.1fs' % (len(dts), KINDS, time.time() - t0))
+    sys.exit(rc)
